@@ -260,6 +260,12 @@ ROUND8 = {
  'C17': " _refresh: as many heads as the occupied-cells hook asks for and n_cells equal to that number (BoxSortNNPS inherits the walk); native walk includes BoxSort/CellIndexing and Solver.reorder_particles after update_domain() on a periodic box (defect repaired: 5c32297).",
  'C19': " The h minimum is current only after update_min_max() (ghost state in the model), dt_adapt is read over the REAL particles (defects repaired: 81a3836); replays on compiled particle arrays.",
 }
+ROUND8['C01'] += " 'cidspace': the per-particle cell-id tables of the z-order classes are indexed by particle ids only (defect repaired: c5c0c8b); one buffer per CURRENT thread after NeighborCache.update (c20b8ce)."
+ROUND8['C03'] += " The convergence test skips equation-less sub-groups (defect repaired: 0a55d3f)."
+ROUND8['C06'] += " copy_properties refuses a range its source cannot fill (e28ff35). BOUNDED case, open finding: extract into a destination whose same-named property has another C type."
+ROUND8['C10'] += " _get_timestep restores the saved step whenever one is pending (defect repaired: b6b72f1, a round-one finding)."
+ROUND8['C15'] = " 'stubs': every call of the Python printf stand-in is one its signature accepts (defect repaired: 4581e7d)."
+ROUND8['C20'] = " Equations that read source data but are given no source are rejected (defect repaired: de852a8); a complete problem without a spare property is accepted (c321606)."
 for _c in CHECKS:
     if _c['id'] in ROUND8:
         _c['text'] = _c['text'] + ROUND8[_c['id']]
